@@ -177,7 +177,10 @@ def session(cfg, sock):
                     sd = c.send_empty_data()
                 else:
                     # three parts, the middle one empty: part boundaries are not line boundaries of their own
-                    sd = c.send_data(b'Subject: x\r\n\r\n', b'', b'.leading dot\r\nbody\r\n')
+                    if cfg.get('content') == 'lf-end':
+                        sd = c.send_data(b'Subject: x\r\n\r\n', b'.dot after the blank line\nlast line ends in a bare LF\n')
+                    else:
+                        sd = c.send_data(b'Subject: x\r\n\r\n', b'', b'.leading dot\r\nbody\r\n')
                 if cfg['lmtp'] and cfg.get('dup'):
                     acc = [i for i in range(cfg['n']) if _split_classes(transactions_of(cfg)[t], cfg['n'])[1][i] == '2']
                     for j, (rcpt, r) in enumerate(sd):
@@ -205,7 +208,9 @@ def session(cfg, sock):
     sent = sock.sent()
     if not cfg['empty'] and err is None and b'DATA\r\n' in sent:
         for chunk in sent.split(b'DATA\r\n')[1:]:
-            if b'Subject: x' in chunk and not chunk.startswith(b'Subject: x\r\n\r\n..leading dot\r\nbody\r\n.\r\n'):
+            want = (b'Subject: x\r\n\r\n..dot after the blank line\nlast line ends in a bare LF\n\r\n.\r\n' if cfg.get('content') == 'lf-end'
+                    else b'Subject: x\r\n\r\n..leading dot\r\nbody\r\n.\r\n')
+            if b'Subject: x' in chunk and not chunk.startswith(want):
                 err = 'content-wire-mismatch: ' + repr(chunk[:60])
     return tuple(got), err, len(c.reply_queue), c.io.recv_buffer + sock.unread()
 
@@ -348,6 +353,12 @@ def dup_scripts(tier):
                 yield {'lmtp': lmtp, 'pipelining': pipelining, 'n': n, 'empty': False, 'dup': True, 'classes': cls, 'lshift': 0}
 
 
+def content_scripts(tier):
+    for lmtp in (True, False):
+        for pipelining in (True, False):
+            yield {'lmtp': lmtp, 'pipelining': pipelining, 'n': 1, 'empty': False, 'content': 'lf-end', 'classes': '2232', 'lshift': 0}
+
+
 def auth_late_scripts(tier):
     for lmtp in (False, True):
         for pipelining in (True, False):
@@ -398,7 +409,7 @@ def configs(tier, seed):
 
 def run_config(cfg, tier, seed):
     res = Result()
-    for i, sc in enumerate(itertools.chain(scripts(tier), extra_scripts(tier), auth_scripts(tier), auth_late_scripts(tier), dup_scripts(tier))):
+    for i, sc in enumerate(itertools.chain(scripts(tier), extra_scripts(tier), auth_scripts(tier), auth_late_scripts(tier), dup_scripts(tier), content_scripts(tier))):
         if i % cfg['of'] != cfg['k']:
             continue
         script, outs = run_script(sc, tier, res)
